@@ -3,7 +3,7 @@ import hsuite
 from props.c03 import TRUSTED, ASSUMPTIONS
 COQCHK = False
 NAMES = ['c14', 'c04']
-PROFILE = {'quick': 400, 'thorough': 2500, 'lengths': [8, 14], 'finale': ['settle'], 'weights': {'post': 30, 'frame': 24, 'upgrade': 8, 'open_ws': 5, 'poll': 4, 'send': 2, 'adv': 3, 'bad': 1}, 'p_async': 0.3}
+PROFILE = {'quick': 400, 'thorough': 25000, 'lengths': [8, 14], 'finale': ['settle'], 'weights': {'post': 30, 'frame': 24, 'upgrade': 8, 'open_ws': 5, 'poll': 4, 'send': 2, 'adv': 3, 'bad': 1}, 'p_async': 0.3}
 RULE = ('seeded histories (opens with every connect outcome, polls, posts, upgrade handshakes, WebSocket frames and closes, application calls, refused requests, clock advances) over up to 4 sessions, each run on the threaded and the asyncio server and through the model; '
         'weighted towards oversize and undecodable POST bodies and frames on polling, WebSocket and mid-upgrade sessions; body reads are recorded by an instrumented wsgi.input. distinct = distinct (server, configuration, stimuli)')
 
